@@ -409,6 +409,12 @@ func toolForErr[In, Out any](t *Tool, h ToolHandlerFor[In, Out], cache *SchemaCa
 				outval = elemZero
 			}
 		}
+		if outval == nil && outputResolved != nil && res.InputRequests == nil && res.StructuredContent == nil && !res.IsError {
+			// A nil output (possible only when Out is any) although an output schema
+			// is declared: treat it as JSON null, so that it is validated, and the
+			// defaults of an object-rooted schema are applied, like any other output.
+			outval = json.RawMessage("null")
+		}
 		if outval != nil {
 			outbytes, err := json.Marshal(outval)
 			if err != nil {
